@@ -165,6 +165,59 @@ def work(item):
     return n, skipped, fails
 
 
+# ---- programs with hand-derived expected results (constructs the CEK reference does not model: stdlib shift / reset, raw
+# call-with-exception-handler inside callbacks of native higher-order procedures)
+def explicit_programs():
+    E = []
+    sr = [("(reset (+ 1 (shift k (* 2 (k 5)))))", "(i 12)"), ("(reset (+ 1 (shift k (k (k 5)))))", "(i 7)"), ("(reset (* 2 (shift k (+ (k 1) (k 2)))))", "(i 6)"),
+          ("(reset (+ 1 (shift k 10)))", "(i 10)"), ("(+ 100 (reset (+ 1 (shift k (k 1)))))", "(i 102)"), ("(reset (+ 1 (shift k (+ 10 (k 1)))))", "(i 12)"),
+          ("(reset (list 'a (shift k (cons 'x (k 'b)))))", "(lst (sym \"x\") (sym \"a\") (sym \"b\"))"),
+          ("(reset (+ (shift k (+ (k 1) (k 10))) (shift k2 (* 2 (k2 3)))))", "(i 34)"),
+          ("(let ((r (reset (begin (shift k (list (k 1) (k 2))) ))) ) r)", None),
+          ("(reset (reset (+ 1 (shift k (k (k 1))))))", "(i 3)"), ("(+ 1 (reset (* 2 (reset (+ 1 (shift k (k (k 1))))))))", "(i 7)"),
+          ("(define (gen-list thunk) (reset (begin (thunk) '()))) (define (yield v) (shift k (cons v (k #f)))) (gen-list (lambda () (yield 1) (yield 2) (yield 5)))", "(lst (i 1) (i 2) (i 5))"),
+          ("(let ((saved #f)) (list (reset (+ 1 (shift k (begin (set! saved k) (k 1))))) (saved 10) (saved 20)))", "(lst (i 2) (i 11) (i 21))")]
+    for p, w in sr:
+        if w is not None:
+            E.append(("shift-reset", "(define (main) %s) (main)" % p if not p.startswith("(define") else p, w, None))
+    # an error raised by a handler that was dispatched from inside a callback of a native higher-order procedure goes to the NEXT handler out
+    cbs = [("map", "(map (lambda (x) {B}) (list 1))"), ("for-each", "(for-each (lambda (x) {B}) (list 1))"), ("foldl", "(foldl (lambda (x acc) {B}) 0 (list 1))"),
+           ("transduce", "(transduce (list 1) (mapping (lambda (x) {B})) (into-list))"), ("filter", "(filter (lambda (x) {B}) (list 1))"),
+           ("sort", "(sort (list 2 1) (lambda (a b) {B}))"), ("apply", "(apply (lambda (x) {B}) (list 1))"), ("direct", "((lambda (x) {B}) 1)")]
+    inner = "(call-with-exception-handler (lambda (e) (display \"I\") (error \"again\")) (lambda () (display \"b\") (car 5)))"
+    for cn, cb in cbs:
+        body = cb.replace("{B}", inner)
+        E.append(("handler-raises-inside-native-callback:" + cn,
+                  "(define (main) (call-with-exception-handler (lambda (e) (display \"O\") 'outer-handled) (lambda () %s))) (main)" % body, None, "bIO"))
+        E.append(("handler-returns-inside-native-callback:" + cn,
+                  "(define (main) (call-with-exception-handler (lambda (e) (display \"O\") 'outer) (lambda () %s))) (main)"
+                  % cb.replace("{B}", "(call-with-exception-handler (lambda (e) (display \"I\") 1) (lambda () (display \"b\") (+ 1 (car 5))))"), None, None))
+    return E
+
+
+def work_explicit(item):
+    env, lst = item
+    fails = []
+    for fam, prog, want, out in lst:
+        henv = {k: v for k, v in (env or {}).items() if k != "STEEL_VERIF_GC"} or None
+        steps = [PRE + " " + prog]
+        c = {"id": 0, "steps": steps}
+        if env and "STEEL_VERIF_GC" in env:
+            c = {"id": 0, "env": {"STEEL_VERIF_GC": env["STEEL_VERIF_GC"]}, "steps": [{"op": "gcplan", "on": True}] + steps}
+        r = common.run_cases([c], env=henv, batch=1, timeout_ms=20000)[0]
+        if r["exit"] != "normal":
+            fails.append((fam, prog, "crash:" + r["exit"], env))
+            continue
+        st = r["steps"][-1]
+        if st["s"] == "panic":
+            fails.append((fam, prog, "panic", env))
+        elif want is not None and (st["s"] != "ok" or st["v"][-1] != want):
+            fails.append((fam, prog, "value: want %s got %s" % (want, (st.get("v") or [st.get("m", "")])[-1][:80]), env))
+        elif out is not None and st.get("out") != out:
+            fails.append((fam, prog, "output: want %s got %s (%s)" % (out, st.get("out"), st["s"]), env))
+    return len(lst), fails
+
+
 def still(steps, env, cls):
     rf = c01.reference(steps)
     if rf is None:
@@ -202,6 +255,16 @@ def main(argv=None):
     n = sum(r[0] for r in results)
     skipped = sum(r[1] for r in results)
     fails = sorted([f for r in results for f in r[2]], key=lambda f: (len(f[0][0]), f[0][0], json.dumps(f[4])))
+    ex = explicit_programs()
+    eres = common.pmap(work_explicit, [(env, ch) for env in envs for ch in common.chunks(ex, 8)])
+    n += sum(r[0] for r in eres)
+    eseen = set()
+    for fam, prog, why, env in sorted([f for r in eres for f in r[1]], key=lambda f: (f[0], len(f[1]), json.dumps(f[3]))):
+        key = (fam, why.split(":")[0])
+        if key in eseen:
+            continue
+        eseen.add(key)
+        rep.violation("%s :: %s :: %s" % (fam, why, prog), {"program": prog, "why": why, "env": env}, {"case": {"steps": [PRE + " " + prog]}, "env": env})
     # minimal case per (family, failure class): the smallest failing program of the enumeration (programs are generated
     # simplest-first; structural shrinking drifts between mechanisms here, so none is applied)
     seen = set()
